@@ -32,9 +32,11 @@ def _sc(n):
 
 SEGMENTS = {
     "quick": [("ieq_small", 27), ("ieq4", 543), ("ieq_rand", _sc(400)), ("closure_exh", 193),
-              ("closure_rand", _sc(220)), ("indep", _sc(600)), ("imap", _sc(400))],
+              ("closure_rand", _sc(220)), ("indep", _sc(600)), ("imap", _sc(400)),
+              ("closure_seq", _sc(200)), ("jpd_seq", _sc(240))],
     "thorough": [("ieq_small", 27), ("ieq4", 543), ("ieq_rand", _sc(6000)), ("closure_exh", 193),
-                 ("closure_rand", _sc(6000)), ("indep", _sc(6000)), ("imap", _sc(3000))],
+                 ("closure_rand", _sc(6000)), ("indep", _sc(6000)), ("imap", _sc(3000)),
+                 ("closure_seq", _sc(3000)), ("jpd_seq", _sc(3000))],
 }
 PLAN = {
     "quick": {"cases": sum(c for _, c in SEGMENTS["quick"]), "hashseeds": 3, "shards": 5, "timeout": 420,
@@ -42,7 +44,7 @@ PLAN = {
     "thorough": {"cases": sum(c for _, c in SEGMENTS["thorough"]), "hashseeds": 8, "shards": 2, "timeout": 3000,
                  "min_nontrivial": int(9000 * min(1.0, _SCALE)), "exhaustive": False},
 }
-RULE = ("seven segments, case index -> segment. ieq_small: every ordered pair of DAGs on 1, 2, 3 labelled nodes "
+RULE = ("nine segments, case index -> segment. ieq_small: every ordered pair of DAGs on 1, 2, 3 labelled nodes "
         "(1 + 9 + 625, exhaustive); ieq4: one case per 4-node DAG G1 (543), G1 against all 543 (294 849 ordered pairs, "
         "exhaustive in both tiers); ieq_rand: random "
         "5-6 node DAG against copies, random re-orientations of its skeleton, covered / non-covered edge reversals, "
@@ -51,10 +53,19 @@ RULE = ("seven segments, case index -> segment. ieq_small: every ordered pair of
         "(thorough: 4-6) variables; indep: joint tables over 3-4 (thorough 3-5) binary/ternary variables (BN-product, "
         "block-product, parity, context-specific, generic) x every pair x every conditioning set x every positive "
         "context, plus get_independencies; imap: such tables x every variable order for minimal_imap, plus is_imap in "
-        "both directions. non-trivial: ieq = G1 has an edge and a same-skeleton partner other than itself; closure = "
+        "both directions; closure_seq: one or two Independencies objects built incrementally (constructor + 2-3 "
+        "add_assertions batches, optional reduce()) interleaved with closure / entails / is_equivalent (live object as "
+        "receiver and as argument), every answer judged against the reference closure of the assertions present at "
+        "that moment, returned closure objects mutated and the source re-queried; jpd_seq: ONE "
+        "JointProbabilityDistribution object serving a shuffled sequence of 20-30 check_independence (3 modes) / "
+        "get_independencies / minimal_imap / is_imap / marginal_distribution / conditional_distribution(inplace=False) "
+        "/ copy / to_factor calls, every answer judged against the original table. non-trivial: ieq = G1 has an edge and a same-skeleton partner other than itself; closure = "
         "some axiom adds a statement; indep = the table has both a holding and a failing statement; imap = the table "
-        "has a dependency. distinct by digest of the whole spec")
-ASSUMPTIONS = ["path-based d-separation and the (skeleton, v-structure with collider) key agree on every pair (asserted)",
+        "has a dependency; closure_seq = >= 2 adds and some axiom fires; jpd_seq = >= 10 calls and both verdicts occur. "
+        "distinct by digest of the whole spec")
+ASSUMPTIONS = ["object histories: add_assertions is the only editing operation exercised on Independencies; "
+               "JointProbabilityDistribution objects are only queried (inplace=False), never edited",
+               "path-based d-separation and the (skeleton, v-structure with collider) key agree on every pair (asserted)",
                "reference semi-graphoid saturation written from the four axioms over disjoint triples",
                "numeric independence is judged only when it holds to 1e-13 or fails by >= 1e-3 relative; tables are "
                "built exactly factorised or with strong dependencies",
@@ -62,6 +73,7 @@ ASSUMPTIONS = ["path-based d-separation and the (skeleton, v-structure with coll
 REACH = [
     "pgmpy.base.DAG:DAG.is_iequivalent",
     "pgmpy.base.DAG:DAG.get_immoralities",
+    "pgmpy.independencies.Independencies:Independencies.add_assertions",
     "pgmpy.independencies.Independencies:Independencies.closure",
     "pgmpy.independencies.Independencies:Independencies.entails",
     "pgmpy.independencies.Independencies:Independencies.is_equivalent",
@@ -463,6 +475,12 @@ def gen_case(seed, idx, tier):
         rng.shuffle(perm)
         return {"kind": "imap", "vars": [names[p] for p in perm], "card": [card[p] for p in perm],
                 "table": np.transpose(J, perm).tolist(), "flavor": flavor, "bn": bn, "alt": alt, "build_seed": bs}
+    if seg == "closure_seq":
+        from rv.props import C18_seq
+        return C18_seq.gen_closure_seq(rng, bs, tier)
+    if seg == "jpd_seq":
+        from rv.props import C18_seq
+        return C18_seq.gen_jpd_seq(rng, bs, tier)
     raise ValueError(seg)
 
 
@@ -945,6 +963,72 @@ def _subsets(u, proper=True):
             yield c
 
 
+def judge_minimal_imap(ctx, G, order, st, triples, agg, digest, flavor, label=None):
+    """Judge one minimal_imap(order) result G: every d-separation statement (sets) of the returned graph must hold
+    in the table (st = three-valued numeric oracle).  Violations are aggregated into agg[key]."""
+    label = label or f"minimal_imap(order={order})"
+    if ctx.failed(G):
+        agg.setdefault(f"c18:exception:{G.type}@{G.where}", [f"{label} raised {G!r}", {}, 0])[2] += 1
+        return
+    try:
+        edges = sorted((u, v) for (u, v) in G.edges())
+        gnodes = list(G.nodes())
+        if not set(gnodes) <= set(order) or not oracle.is_acyclic(order, edges):
+            raise ValueError(f"nodes {gnodes}, edges {edges}")
+    except Exception as e:
+        agg.setdefault("c18:malformed-result", [f"{label}: {type(e).__name__}: {e}", {}, 0])[2] += 1
+        return
+    digest.append(edges)
+    ds = oracle.DSep(order, edges)
+    bad, unsure = [], 0
+    for (A, B, C) in triples:
+        if all(ds.dsep(a, b, C) for a in A for b in B):
+            s = st(A, B, C)
+            if s == "fails":
+                bad.append((A, B, C))
+            elif s == "ambiguous":
+                unsure += 1
+    if unsure:
+        ctx.note("imap:statement-not-judged-near-tolerance", unsure)
+    par = gen.parents_of(order, edges)
+    if not bad:
+        ctx.ok()
+        # minimality is observed, not demanded (the statement only asks for soundness)
+        removable = [(p, x) for x in order for p in par[x]
+                     if st({x}, set(order[:order.index(x)]) - (set(par[x]) - {p}), set(par[x]) - {p}) == "holds"]
+        if removable:
+            ctx.note("imap:returned-imap-is-not-minimal")
+        return
+    # ---- classify: which nodes got a parent set that does not screen off their predecessors, and why
+    classes = set()
+    why = []
+    for i, x in enumerate(order):
+        u = order[:i]
+        rest = set(u) - set(par[x])
+        if not rest or st({x}, rest, set(par[x])) != "fails":
+            continue
+        set_q = [S for S in _subsets(u) if st({x}, set(u) - set(S), set(S)) == "holds"]
+        pair_q = [S for S in _subsets(u) if all(st({x}, {y}, set(S)) == "holds" for y in set(u) - set(S))]
+        predicted = set().union(*[set(S) for S in pair_q]) if pair_q else set()
+        if set_q or set(par[x]) != predicted:
+            classes.add("other")
+        elif pair_q:
+            classes.add("pairwise")
+        else:
+            classes.add("subset-loop")
+        why.append(f"{x}: predecessors {u}, parents given {sorted(par[x])}")
+    if not classes or "other" in classes:
+        keys = ["c18:imap-false-independence"]
+    else:
+        keys = [{"subset-loop": "c18:imap-subset-loop", "pairwise": "c18:imap-pairwise-event-check"}[c]
+                for c in sorted(classes)]
+    A, B, C = bad[0]
+    what = (f"{label} returned edges {edges}, which encode {len(bad)} independence statement(s) that fail in the "
+            f"table, e.g. {sorted(A)} _|_ {sorted(B)} | {sorted(C)}; nodes with insufficient parents: {why}")
+    for key in keys:
+        agg.setdefault(key, [what, dict(flavor=flavor, order=order), 0])[2] += 1
+
+
 def run_imap(spec, ctx):
     import random
     from pgmpy.factors.discrete import JointProbabilityDistribution
@@ -970,67 +1054,7 @@ def run_imap(spec, ctx):
         order = list(order)
         arg = list(order) if rng.random() < 0.7 else tuple(order)
         G = ctx.call(jpd.minimal_imap, arg)
-        label = f"minimal_imap(order={order})"
-        if ctx.failed(G):
-            agg.setdefault(f"c18:exception:{G.type}@{G.where}", [f"{label} raised {G!r}", {}, 0])[2] += 1
-            continue
-        try:
-            edges = sorted((u, v) for (u, v) in G.edges())
-            gnodes = list(G.nodes())
-            if not set(gnodes) <= set(order) or not oracle.is_acyclic(order, edges):
-                raise ValueError(f"nodes {gnodes}, edges {edges}")
-        except Exception as e:
-            agg.setdefault("c18:malformed-result", [f"{label}: {type(e).__name__}: {e}", {}, 0])[2] += 1
-            continue
-        digest.append(edges)
-        ds = oracle.DSep(order, edges)
-        bad, unsure = [], 0
-        for (A, B, C) in triples:
-            if all(ds.dsep(a, b, C) for a in A for b in B):
-                s = st(A, B, C)
-                if s == "fails":
-                    bad.append((A, B, C))
-                elif s == "ambiguous":
-                    unsure += 1
-        if unsure:
-            ctx.note("imap:statement-not-judged-near-tolerance", unsure)
-        par = gen.parents_of(order, edges)
-        if not bad:
-            ctx.ok()
-            # minimality is observed, not demanded (the statement only asks for soundness)
-            removable = [(p, x) for x in order for p in par[x]
-                         if st({x}, set(order[:order.index(x)]) - (set(par[x]) - {p}), set(par[x]) - {p}) == "holds"]
-            if removable:
-                ctx.note("imap:returned-imap-is-not-minimal")
-            continue
-        # ---- classify: which nodes got a parent set that does not screen off their predecessors, and why
-        classes = set()
-        why = []
-        for i, x in enumerate(order):
-            u = order[:i]
-            rest = set(u) - set(par[x])
-            if not rest or st({x}, rest, set(par[x])) != "fails":
-                continue
-            set_q = [S for S in _subsets(u) if st({x}, set(u) - set(S), set(S)) == "holds"]
-            pair_q = [S for S in _subsets(u) if all(st({x}, {y}, set(S)) == "holds" for y in set(u) - set(S))]
-            predicted = set().union(*[set(S) for S in pair_q]) if pair_q else set()
-            if set_q or set(par[x]) != predicted:
-                classes.add("other")
-            elif pair_q:
-                classes.add("pairwise")
-            else:
-                classes.add("subset-loop")
-            why.append(f"{x}: predecessors {u}, parents given {sorted(par[x])}")
-        if not classes or "other" in classes:
-            keys = ["c18:imap-false-independence"]
-        else:
-            keys = [{"subset-loop": "c18:imap-subset-loop", "pairwise": "c18:imap-pairwise-event-check"}[c]
-                    for c in sorted(classes)]
-        A, B, C = bad[0]
-        what = (f"{label} returned edges {edges}, which encode {len(bad)} independence statement(s) that fail in the "
-                f"table, e.g. {sorted(A)} _|_ {sorted(B)} | {sorted(C)}; nodes with insufficient parents: {why}")
-        for key in keys:
-            agg.setdefault(key, [what, dict(flavor=spec["flavor"], order=order), 0])[2] += 1
+        judge_minimal_imap(ctx, G, order, st, triples, agg, digest, spec["flavor"])
     _flush(ctx, agg)
 
     # ---- is_imap in both directions
@@ -1083,4 +1107,10 @@ def run_case(spec, ctx):
         return run_indep(spec, ctx)
     if kind == "imap":
         return run_imap(spec, ctx)
+    if kind == "closure_seq":
+        from rv.props import C18_seq
+        return C18_seq.run_closure_seq(spec, ctx)
+    if kind == "jpd_seq":
+        from rv.props import C18_seq
+        return C18_seq.run_jpd_seq(spec, ctx)
     raise ValueError(kind)
